@@ -68,7 +68,10 @@ def conv_hparams(draw, cin=None):
 
 @st.composite
 def leaves(draw):
-    kind = draw(st.sampled_from(["linear", "linear", "conv", "ln", "mylinear", "relu", "gelu", "tanh", "flatten", "identity", "embedding", "bn", "bare", "dropout"]))
+    kind = draw(st.sampled_from(["linear", "linear", "conv", "ln", "mylinear", "relu", "gelu", "tanh", "flatten", "identity", "embedding", "bn", "bare", "dropout", "tied"]))
+    if kind == "tied":
+        # two distinct modules sharing one Parameter (tied embeddings / tied projections)
+        return {"t": "tied", "i": draw(st.integers(1, 6)), "o": draw(st.integers(1, 6)), "bias": draw(st.booleans()), "with": draw(st.sampled_from(["embedding", "linear", "embedding-after"]))}
     if kind in ("linear", "mylinear"):
         return {"t": kind, "i": draw(st.integers(1, 6)), "o": draw(st.integers(1, 6)), "bias": draw(st.booleans())}
     if kind == "conv":
@@ -119,6 +122,14 @@ def build_tree(node, g):
         m = torch.nn.BatchNorm2d(node["n"])
     elif t == "bare":
         return BareLeaf(node["n"])
+    elif t == "tied":
+        lin = torch.nn.Linear(node["i"], node["o"], bias=node["bias"])
+        other = torch.nn.Linear(node["i"], node["o"], bias=False) if node["with"] == "linear" else torch.nn.Embedding(node["o"], node["i"])
+        with torch.no_grad():
+            for p in lin.parameters():
+                p.copy_(torch.randn(p.shape, generator=g) * 0.5)
+        other.weight = lin.weight
+        return Holder([lin, other] if node["with"] == "embedding-after" else [other, lin])
     else:
         m = {"relu": torch.nn.ReLU, "gelu": torch.nn.GELU, "tanh": torch.nn.Tanh, "flatten": torch.nn.Flatten, "identity": torch.nn.Identity, "dropout": torch.nn.Dropout}[t]()
     with torch.no_grad():
